@@ -256,7 +256,7 @@ def apply_rules(text, features=(), keep_unsafe=False):
     t = re.sub(r'^([ \t]*)#\[derive\(([^\]]*)\)\]\s*\n', _derive, t, flags=re.M)
     t = re.sub(r'^[ \t]*#\[(inline[^\]]*|repr\([^\]]*\)|allow\([^\]]*\))\]\s*\n', '', t, flags=re.M)
     # R3: panics become obligations
-    for pat, repl in ((r'\b(panic|unreachable|unimplemented)!\s*\(', 'vstd::pervasive::unreached()'),):
+    for pat, repl in ((r'\b(panic|unreachable|unimplemented)!\s*\(', 'verif_unreached()'),):
         m = mask_noncode(t)
         out = []; i = 0
         for mm in re.finditer(pat, m):
